@@ -5,6 +5,7 @@
   for every number of inputs.
 -/
 import BB.Model.Ctx
+import BB.Proofs.CtxBuild
 
 namespace BB.Props.C16
 open BB.Ctx
@@ -621,6 +622,119 @@ theorem conflated_iff (n : Nat) (as : List ConflatedAct) :
   · intro hq hr
     have hsum := all_one_sum s.chains (fun c hc => quiet_calls hq c hc (Or.inr (by rw [h.ctxEq c hc]; exact hr)))
     have := h.wgEq; omega
+
+/-! ## Construction: cancellations landing while the constructor runs (BB/Model/CtxBuild.lean) -/
+
+/-- CombineContext returns an already-cancelled child only when its pre-check really saw a cancelled input -/
+theorem combine_build_cancelled_has_cause (x : Ins) (trigP : List Nat) (trig : Nat → List Nat) (x' : Ins)
+    (h : combineBuild x trigP trig = .cancelledChild x') : ∃ j : Nat, x'.others[j]? = some In.dead := by
+  unfold combineBuild combineBuild1 at h
+  generalize (if x.prim = In.nil then x else x.cancel trigP) = x1 at h
+  by_cases h1 : x1.prim = In.dead
+  · simp [h1] at h
+  · simp only [h1, ↓reduceIte] at h
+    by_cases h2 : (combineScan trig x1 (List.range x1.others.length)).2 = true
+    · simp only [h2, ↓reduceIte] at h
+      injection h with e; subst e
+      exact combineScan_true _ _ _ h2
+    · simp only [h2] at h
+      by_cases h3 : (combineScan trig x1 (List.range x1.others.length)).1.others.all (· = In.nil) = true
+      · simp [h3] at h
+      · simp [h3] at h
+
+/-- NO CANCELLATION IS LOST DURING CONSTRUCTION.  Whatever the environment cancels while `CombineContext` runs — before an
+    input's pre-check, between its pre-check and its registration, or the primary itself at any point — if the
+    constructor goes on to wire the inputs, then for every continuation (later cancellations, callbacks in any order):
+    once the scheduled callbacks have run the result is cancelled if the primary or ANY non-nil other is cancelled,
+    including those that were cancelled after their pre-check (their registration fires at once). -/
+theorem combine_build_wired_complete (x : Ins) (trigP : List Nat) (trig : Nat → List Nat) (x' : Ins) (n : Nat)
+    (pre : List CombineAct) (h : combineBuild x trigP trig = .wired x' n pre) (as : List CombineAct) :
+    let s := (Combine.init n).run (pre ++ as)
+    s.quiescent = true → (x'.prim = In.dead ∨ ∃ j : Nat, x'.others[j]? = some In.dead) → s.resultC = true := by
+  intro s hq hc
+  have hiff := combine_iff n (pre ++ as)
+  simp only at hiff
+  apply hiff.2.2.1 hq
+  -- the cause is visible in the model state
+  unfold combineBuild combineBuild1 at h
+  generalize (if x.prim = In.nil then x else x.cancel trigP) = x1 at h
+  by_cases h1 : x1.prim = In.dead
+  · simp [h1] at h
+  · simp only [h1, ↓reduceIte] at h
+    by_cases h2 : (combineScan trig x1 (List.range x1.others.length)).2 = true
+    · simp [h2] at h
+    · simp only [h2] at h
+      by_cases h3 : (combineScan trig x1 (List.range x1.others.length)).1.others.all (· = In.nil) = true
+      · simp [h3] at h
+      · simp only [h3] at h
+        injection h with e1 e2 e3
+        rw [e1] at e2 e3
+        have hlen : (Combine.init n).others.length = n := by simp [Combine.init]
+        rcases hc with hp | ⟨j, hj⟩
+        · left
+          show ((Combine.init n).run (pre ++ as)).primaryC = true
+          rw [combine_run_append]
+          apply combine_run_prim_mono
+          apply combine_run_mem_cancelPrimary
+          rw [← e3]; simp [hp]
+        · right
+          have hjl : j < x'.others.length := by
+            rcases Nat.lt_or_ge j x'.others.length with h' | h'
+            · exact h'
+            · rw [List.getElem?_eq_none h'] at hj; cases hj
+          have hi : liveIndex x'.others j < n := by
+            rw [← e2]; exact liveIndex_lt _ _ _ hj (by decide)
+          have hmem : CombineAct.cancelOther (liveIndex x'.others j) ∈ pre := by
+            rw [← e3]
+            apply List.mem_append_left
+            apply List.mem_map.mpr
+            refine ⟨j, ?_, rfl⟩
+            simp only [List.mem_filter, List.mem_range, hjl, hj, decide_true, and_self]
+          have hflag := combine_run_flag_mono ((Combine.init n).run pre) as _
+            (combine_run_mem_cancelOther (Combine.init n) pre _ (by rw [hlen]; exact hi) hmem)
+          rw [← combine_run_append] at hflag
+          cases hx : ((Combine.init n).run (pre ++ as)).others[liveIndex x'.others j]? with
+          | none => rw [hx] at hflag; simp at hflag
+          | some p =>
+            rw [hx] at hflag
+            exact ⟨p, List.mem_of_getElem? hx, by simpa using hflag⟩
+
+/-- … and it is never cancelled without a cause (soundness carries over unchanged: the wired state is a state of the
+    post-construction model) -/
+theorem combine_build_wired_sound (n : Nat) (pre as : List CombineAct) :
+    let s := (Combine.init n).run (pre ++ as)
+    s.resultC = true → s.primaryC = true ∨ ∃ p ∈ s.others, p.1 = true := (combine_iff n (pre ++ as)).1
+
+/-- ConflatedContext: whatever is cancelled during construction, the built state is a state of the post-construction model
+    (`Conflated.init n` followed by the cancel actions of inputs cancelled after they were wired), so `conflated_iff`
+    applies to it: live while some wired input is live, cancelled once all are -/
+theorem confl_build_is_model_state (l : List In) (trig : Nat → List Nat) (l' : List In) (idx : List (Option Nat)) (n : Nat)
+    (pre : List ConflatedAct) (_h : conflBuild l trig = .wired l' idx n pre) (as : List ConflatedAct) :
+    let s := (Conflated.init n).run (pre ++ as)
+    (s.resultC = true → s.cancelFn = true ∨ ∀ c ∈ s.chains, c.otherC = true) ∧
+    (s.quiescent = true → (∀ c ∈ s.chains, c.otherC = true) → s.resultC = true) :=
+  ⟨(conflated_iff n (pre ++ as)).1, (conflated_iff n (pre ++ as)).2.2.1⟩
+
+/-- an input that can never be cancelled (`Done() == nil`) is wired like any live input: it takes the next chain index,
+    so the result can only be cancelled by its own cancel function -/
+theorem confl_never_input_is_wired (trig : Nat → List Nat) (i : Nat) (is : List Nat) (l : List In) (idx : List (Option Nat))
+    (n : Nat) (pre : List ConflatedAct) (h : (cancelAll l (trig i))[i]? = some In.never) :
+    conflScan trig (i :: is) l idx n pre =
+      conflScan trig is (cancelAll l (trig i)) (idx ++ [some n]) (n + 1)
+        (pre ++ (trig i).filterMap (fun k => match idx[k]?, l[k]?, (cancelAll l (trig i))[k]? with
+          | some (some c), some In.live, some In.dead => some (ConflatedAct.cancelInput c)
+          | _, _, _ => none)) := by
+  simp only [conflScan, h]
+  rfl
+
+/-! non-vacuity: other 0 is cancelled while the constructor checks other 1 (after 0's own pre-check): the registration on
+    0 fires at once and the result is cancelled; a never-cancellable input keeps a conflated context alive -/
+example : (match combineBuild { prim := .live, others := [.live, .live] } [] (fun j => if j = 1 then [0] else []) with
+    | .wired _ n pre => some (n, pre, ((Combine.init n).run (pre ++ [.runCancel, .runStop])).resultC)
+    | _ => none) = some (2, [.cancelOther 0], true) := by decide
+example : (match conflBuild [.live, .never] (fun _ => []) with
+    | .wired _ idx n pre => some (idx, n, pre, ((Conflated.init n).run (pre ++ [.cancelInput 0, .runF 0, .waiter])).resultC)
+    | _ => none) = some ([some 0, some 1], 2, [], false) := by decide
 
 /-! non-vacuity: both contexts of a chain cancelled before any callback runs; a combine with three
     others where the second fires; a conflated context over two inputs -/
